@@ -8,6 +8,13 @@ def main(argv):
     sys.path.insert(0, HERE)
     from vlib import common, orderpass, shared
     from checks import crossapi
+    amb = os.environ.get('VERIF_AMBIENT', '')
+    if amb.startswith('decimal-'):
+        # the host application does its own Decimal sums with a directed rounding mode (set before anything else runs, also for threads started later)
+        import decimal
+        mode = getattr(decimal, amb[len('decimal-'):])
+        decimal.getcontext().rounding = mode
+        decimal.DefaultContext.rounding = mode
     if os.environ.get('VERIF_AMBIENT') == 'debug-logging':
         import logging
         logging.basicConfig(level=logging.DEBUG, handlers=[logging.NullHandler()])
@@ -19,10 +26,21 @@ def main(argv):
         orderpass.resolve(c[0])
     st = shared.SharedState('athlib')
     pristine = st.capture()
+    if amb == 'line-tracer':
+        # a debugger / coverage-style tracer is active: line events in every frame, and the tracer looks at the frame's local variables
+        def _local(frame, event, arg):
+            frame.f_locals
+            return _local
+
+        def _global(frame, event, arg):
+            frame.f_locals
+            return _local
+        sys.settrace(_global)
     out = []
     for c in calls:
         st.restore(pristine)
         out.append([repr(c[:3]), list(orderpass.outcome(c[:3]))])
+    sys.settrace(None)
     print('INTERP-RESULT ' + json.dumps(dict(optimize=sys.flags.optimize, ambient=os.environ.get('VERIF_AMBIENT', ''), answers=out)))
     return 0
 
